@@ -15,6 +15,15 @@ CHECKS = {
         note='Trusts vf/ref/script.py (validated by vf.setup on the real-chain pairs and by bulk agreement), OpenSSL hashes, and that TAPSCRIPT sessions '
              'carry the execdata configure_tx_txin always sets. The known finding C01-opsuccess is excluded from the BIP342 layer only.',
         design='5/C01'),
+    'C10': dict(
+        technique='constructive boundary-value property-based testing (Hypothesis) with a differential oracle and a directional oracle taken from the statement',
+        text='For every limit and every way of reaching it the generator constructs scripts at L-1, L and L+1 for BASE / WITNESS_V0 / TAPSCRIPT; the debugger must '
+             'agree with the reference interpreter (outcome, error identity, number of executed operations, final stacks) and, independently of the reference, must not '
+             'report the limit error at or below L and must report exactly it at L+1 (tapscript exemptions: op count and script size). Every case is a boundary case; '
+             'the evidence lists the limit x way x version x offset cells that were hit.',
+        note='Trusts the reference interpreter for non-limit failures; a >520-byte push inside the script text may be refused at load time (C01 allows that). '
+             'Two genuine defects found here were repaired by fix: commits (see known_findings.json).',
+        design='5/C10'),
 }
 
 ALL = ['C%02d' % i for i in range(1, 19)]
